@@ -407,7 +407,18 @@ pub fn space(thorough: bool) -> Vec<Prog> {
 pub fn run(tier: &str) -> i32 {
     let mut rep = Report::new("C02", tier);
     // the whole table is cheap (<2 s): both tiers explore all of it
-    let progs = space(rep.thorough());
+    let mut progs = space(rep.thorough());
+    // module-scope declaration order is not significant: reversed / functions-first variants (every 4th in quick)
+    let n0 = progs.len();
+    for i in 0..n0 {
+        if rep.thorough() || hash64(&progs[i].key) % 4 == 1 {
+            for how in ["reverse", "entries-first"] {
+                if let Some(src) = reorder_decls(&progs[i].src, how) {
+                    progs.push(Prog { key: format!("{}|decl-order={how}", progs[i].key), src, groups: progs[i].groups });
+                }
+            }
+        }
+    }
     let results = par_map(&progs, |p| {
         let mut r = Report::new("C02", tier);
         check(p, &mut r);
